@@ -185,12 +185,12 @@ def write_side(plan, sim):
     if out_g != out_r:
         rg = refdec.decode_stream(out_g, True, strict=False)
         rr = refdec.decode_stream(out_r, True, strict=False)
-        same_data = rg.ok and rr.ok and sorted(rg.items, key=repr) == sorted(rr.items, key=repr)
+        same_data = rg.ok and rr.ok and set(rg.items) == set(rr.items)     # an rdflib Dataset is a set
         v.append({"clause": "C15.serializers_differ",
                   "sig": {"physical": cfg_g["physical"], "input": "generator" if entry in ("frames_gen", "flat_file")
                           else "container", "same_statements": bool(same_data)},
                   "msg": f"generic wrote {len(out_g)} bytes, rdflib {len(out_r)} bytes for corresponding input and "
-                         f"equal options ({entry}); same statements as a bag: {same_data}; generic order "
+                         f"equal options ({entry}); same statements as a set: {same_data}; generic order "
                          f"{[i for i in rg.items][:3]!r} rdflib order {[i for i in rr.items][:3]!r}"})
     key = (repr(sorted(cfg_g.items())), repr(stmts)) if len(stmts) >= 2 else None
     return v, key
